@@ -798,6 +798,13 @@ func checkC16(c *Ctx) {
 	r.Rule("C16.10", "every sctp.Config of the package sets the same maximum message size", 2)
 	checkSCTPConfigs(c, "C16.10", "MaxMessageSize")
 
+	// ---- C16.11 / C16.12 an established session stays a byte stream: the set-up deadline is cleared on the connection it
+	// was armed on (shared with C05.12), and Read delivers what was queued before it reports the close (C05.13)
+	r.Rule("C16.11", "handshake deadlines are cleared on the connection they were set on", 2)
+	checkHandshakeDeadlines(c, "C16.11")
+	r.Rule("C16.12", "hbConn.Read drains its queue before it reports the close", 1)
+	checkDrainBeforeClosed(c, "C16.12")
+
 	r.Rule("C16.6", "client heartbeat period is below the server watchdog interval", 1)
 	// the watchdog is re-armed every interval: between two inspections of the received-heartbeat flag the flag is
 	// cleared, otherwise one heartbeat keeps the connection alive forever
